@@ -110,6 +110,18 @@ class Raw(str):
     """an argument that is already encoded"""
 
 
+def enc_image_runs(data: bytes, max_run: int = 1024) -> str:
+    """as enc_image, with every run split into pieces of at most max_run bytes (a model that
+    reads the runs in place - coq/RolandImage.v sparse_rd - then never skips far inside one)"""
+    out = [str(len(data))]
+    import re as _re
+    for m in _re.finditer(rb"[^\x00]+(?:\x00{1,15}[^\x00]+)*", data):
+        a, b = m.start(), m.end()
+        for o in range(a, b, max_run):
+            out.append("(%d (%s))" % (o, " ".join(map(str, data[o:min(b, o + max_run)]))))
+    return "(" + " ".join(out) + ")"
+
+
 class ModelTimeout(Exception):
     pass
 
